@@ -143,9 +143,9 @@ macro_rules! c16 {
     };
 }
 
-// @verif property=C16 tier=quick timeout=900 bounds="FULL WIDTH: polyline of 1 vertex, |coord|<=2^18 (all such f32); requested length: None or every finite f64" covers=2
+// @verif property=C16,C01 tier=quick timeout=900 bounds="FULL WIDTH: polyline of 1 vertex, |coord|<=2^18 (all such f32); requested length: None or every finite f64" covers=2
 c16!(c16_shapes_n1, clause_shapes, 1, false, 5);
-// @verif property=C16 tier=quick timeout=900 bounds="FULL WIDTH: polyline of 2 vertices, |coord|<=2^18; requested length: None or every finite f64" covers=5
+// @verif property=C16,C01 tier=quick timeout=900 bounds="FULL WIDTH: polyline of 2 vertices, |coord|<=2^18; requested length: None or every finite f64" covers=5
 c16!(c16_shapes_n2, clause_shapes, 2, false, 6);
 // @verif property=C16 tier=quick timeout=900 bounds="REDUCED WIDTH: polyline of 3 vertices with integer coords in [-128,127]; requested length: None or every finite f64" covers=6
 c16!(c16_shapes_grid_n3, clause_shapes, 3, true, 7);
